@@ -31,6 +31,9 @@ pub struct Cfg {
     /// log files of earlier periods (and one unrelated file) already present when the appender is built
     #[serde(default)]
     pub backlog: usize,
+    /// prefix / suffix strings that contain a dot themselves ("pre.app", "log.txt")
+    #[serde(default)]
+    pub dotted: bool,
     /// build through the convenience constructors `rolling::{minutely, hourly, daily, never}`
     #[serde(default)]
     pub ctor: bool,
@@ -99,15 +102,23 @@ fn date_string(r: u8, t: i64) -> String {
     }
 }
 
+fn pre(c: &Cfg) -> &'static str {
+    if c.dotted { "pre.app" } else { "pre" }
+}
+fn suf(c: &Cfg) -> &'static str {
+    if c.dotted { "log.txt" } else { "suf" }
+}
+
 fn file_name(c: &Cfg, t: i64) -> String {
     let date = date_string(c.rotation, t);
+    let (pre, suf) = (pre(c), suf(c));
     match (c.rotation == 3, c.prefix, c.suffix) {
-        (true, true, false) => "pre".to_string(),
-        (true, true, true) => "pre.suf".to_string(),
-        (true, false, true) => "suf".to_string(),
-        (_, true, true) => format!("pre.{}.suf", date),
-        (_, true, false) => format!("pre.{}", date),
-        (_, false, true) => format!("{}.suf", date),
+        (true, true, false) => pre.to_string(),
+        (true, true, true) => format!("{}.{}", pre, suf),
+        (true, false, true) => suf.to_string(),
+        (_, true, true) => format!("{}.{}.{}", pre, date, suf),
+        (_, true, false) => format!("{}.{}", pre, date),
+        (_, false, true) => format!("{}.{}", date, suf),
         (_, false, false) => date,
     }
 }
@@ -123,10 +134,10 @@ fn build(c: &Cfg, dir: &Path) -> Result<RollingFileAppender, String> {
     }
     let mut b = RollingFileAppender::builder().rotation(rot(c.rotation));
     if c.prefix {
-        b = b.filename_prefix("pre");
+        b = b.filename_prefix(pre(c));
     }
     if c.suffix {
-        b = b.filename_suffix("suf");
+        b = b.filename_suffix(suf(c));
     }
     if c.max_files > 0 {
         b = b.max_log_files(c.max_files);
@@ -359,7 +370,7 @@ pub fn run_schedule(job: &[u8]) -> Vec<u8> {
     let sc: Scenario = serde_json::from_str(&job.scenario).unwrap();
     sched::install_hooks();
     let dir = fresh_dir();
-    let c = Cfg { rotation: sc.rotation, prefix: true, suffix: false, max_files: sc.max_files, make_writer: true, clock: vec![], backlog: 0, ctor: false };
+    let c = Cfg { rotation: sc.rotation, prefix: true, suffix: false, max_files: sc.max_files, make_writer: true, clock: vec![], backlog: 0, ctor: false, dotted: false };
     let t0 = days_from_civil(2021, 6, 15) * 86_400 + 13 * 3600 + 10;
     let p = period_len(sc.rotation).unwrap_or(3600);
     let t1 = (t0 / p + 1) * p; // exactly the next boundary
@@ -518,15 +529,19 @@ pub fn run(args: &Args) -> i32 {
                     let full = args.tier == Tier::Thorough || on_memory_fs;
                     for (i, s) in ss.iter().enumerate() {
                         if full || i % 16 == (rotation as usize + max_files) % 16 {
-                            cfgs.push(Cfg { rotation, prefix, suffix, max_files, make_writer, clock: s.clone(), backlog: 0, ctor: false });
+                            cfgs.push(Cfg { rotation, prefix, suffix, max_files, make_writer, clock: s.clone(), backlog: 0, ctor: false, dotted: false });
                             if prefix && !suffix && max_files == 0 && i % 3 == 0 {
-                                cfgs.push(Cfg { rotation, prefix, suffix, max_files, make_writer, clock: s.clone(), backlog: 0, ctor: true });
+                                cfgs.push(Cfg { rotation, prefix, suffix, max_files, make_writer, clock: s.clone(), backlog: 0, ctor: true, dotted: false });
                             }
+                        }
+                        // prefix / suffix strings with a dot of their own, where a limit prunes by name
+                        if (prefix || suffix) && max_files > 0 && rotation != 3 && i % 4 == (rotation as usize + max_files) % 4 {
+                            cfgs.push(Cfg { rotation, prefix, suffix, max_files, make_writer, clock: s.clone(), backlog: 0, ctor: false, dotted: true });
                         }
                         // a directory that already holds more log files than the limit
                         if max_files > 0 && rotation != 3 && (i % tier_mod == (rotation as usize * 3 + max_files) % tier_mod) {
                             for backlog in [max_files, max_files + 2] {
-                                cfgs.push(Cfg { rotation, prefix, suffix, max_files, make_writer, clock: s.clone(), backlog, ctor: false });
+                                cfgs.push(Cfg { rotation, prefix, suffix, max_files, make_writer, clock: s.clone(), backlog, ctor: false, dotted: false });
                             }
                         }
                     }
